@@ -761,6 +761,35 @@ def check_errors(ctx, res, n):
         obs.append(o)
         res.tally('malformed_configuration')
 
+    # merging configurations (first selection of a controller wins), get_selection
+    for _ in range(max(3, n // 4)):
+        cfgs = []
+        for _k in range(rng.randint(0, 4)):
+            if rng.random() < 0.15:
+                cfgs.append(None)
+                continue
+            names_ = rng.sample(['a', 'b', 'b10', 'b2', 'Z'], rng.randint(0, 4))
+            cfgs.append([[c_, rng.choice(['x', 'y', 'z'])] for c_ in names_])
+        query = rng.choice(['a', 'b', 'b10', 'Z', 'nope'])
+        try:
+            objs = tuple(L.Configuration() if c_ is None else L.Configuration([L.SelectionTuple(a, b) for a, b in c_]) for c_ in cfgs)
+            m = L.Configuration.from_tuple_of_configurations(objs)
+            o = {'sels': [[t.controller, t.selection] for t in m.selections], 'id': m.get_string_id(), 'selection': m.get_selection(query)}
+            # oracle: every controller met keeps its first selection
+            first = {}
+            for c_ in cfgs:
+                for a, b in (c_ or []):
+                    first.setdefault(a, b)
+            if dict(o['sels']) != first or o['selection'] != first.get(query):
+                res.violate('from_tuple_of_configurations does not keep the first selection of every controller', {'configs': cfgs, 'query': query},
+                            o, first, where='Configuration.from_tuple_of_configurations')
+        except Exception as e:  # noqa: BLE001
+            o = {'err': err_tag(e)}
+        reqs.append({'op': 'fromtuple', 'configs': cfgs, 'query': query})
+        obs.append(o)
+        res.count({'from_tuple': cfgs}, nontrivial=len([c_ for c_ in cfgs if c_]) >= 2)
+        res.tally('from_tuple_of_configurations')
+
     # configurations and operator arguments a fixed expression must refuse
     case = {
         'expr': {'k': 'bin', 'op': 'plus',
